@@ -265,6 +265,7 @@ def run_impl(case):
             held[j] = (r, a, rc, ac, k)
         # ---------------- oracle: the property statement on the real code
         # (1) what a builtin list does on the validated items
+        op = S.resolve_self(op, snap)      # `l.extend(l)` etc.: the argument is the contents before the call
         vexc = None
         vop = op
         try:
